@@ -1,0 +1,8 @@
+//go:build !verif
+// +build !verif
+
+package host
+
+// verifPause marks a point at which the verification harness (build tag verif)
+// can park a goroutine; it does nothing in normal builds.
+func verifPause(string, interface{}) {}
